@@ -2012,7 +2012,12 @@ class KmipEngine(object):
             )
 
         managed_object_factory = factory.ObjectFactory()
-        managed_object = managed_object_factory.convert(secret)
+        try:
+            managed_object = managed_object_factory.convert(secret)
+        except (TypeError, ValueError) as e:
+            raise exceptions.InvalidField(
+                "The secret cannot be registered: {0}".format(e)
+            )
         managed_object.names = []
 
         self._set_attributes_on_managed_object(
